@@ -21,7 +21,7 @@ use serde::Deserialize;
 use serde_json::{json, Value};
 use warp_core::materialization::make_channel_id;
 use warp_core::{
-    export_suffix, import_suffix, make_head_id, AtomWrite, AttachmentKey, AttachmentValue, BoundaryTransitionRecord,
+    CheckpointRef, HistoryError, WarpId, export_suffix, import_suffix, make_head_id, AtomWrite, AttachmentKey, AttachmentValue, BoundaryTransitionRecord,
     CausalSuffixBundle, CursorId, CursorRole, ExportSuffixRequest, GlobalTick, Hash, ImportSuffixRequest,
     PlaybackCursor, ProvenanceEntry, ProvenanceEventKind, ProvenanceRef, ProvenanceService, ProvenanceStore,
     ReplayCheckpoint, ReplayError, SlotId, WarpOp, WitnessedSuffixAdmissionContext, WitnessedSuffixAdmissionOutcome,
@@ -119,9 +119,91 @@ fn log_new_entries(world: &World, names: &BTreeMap<WorldlineId, String>, seen: &
     }
 }
 
+/// What a history-producing run hands back: the retained store, the findings of the checks made on the
+/// runtime's own (untampered) provenance, and how many SuperTicks committed >= 2 heads of one worldline.
+pub struct Built {
+    pub store: Option<Store>,
+    pub findings: Vec<Value>,
+    pub multi_head_superticks: u64,
+}
+
+fn multi_head(recs: &[(WorldlineId, u64)]) -> u64 {
+    let mut per: BTreeMap<WorldlineId, u64> = BTreeMap::new();
+    for (w, _) in recs {
+        *per.entry(*w).or_default() += 1;
+    }
+    u64::from(per.values().any(|n| *n >= 2))
+}
+
+/// The property on material nobody touched: on the store the runtime itself appended to, every
+/// worldline is a gap-free chain (parents = [the previous entry of that worldline]) and every tick
+/// re-verifies through `replay_worldline_state_at` and `PlaybackCursor::seek_to` to exactly what the
+/// live runtime holds (tick history prefix, roots; the whole state at the frontier).
+fn check_runtime_history(world: &World, names: &BTreeMap<WorldlineId, String>) -> Vec<Value> {
+    let mut findings: Vec<Value> = Vec::new();
+    for (w, name) in names {
+        let Ok(len) = world.prov.len(*w) else { continue };
+        let mut prev: Option<ProvenanceRef> = None;
+        for t in 0..len {
+            match world.prov.entry(*w, wt(t)) {
+                Err(e) => findings.push(json!({"key":"chain.gap:runtime_append","detail":format!("worldline {name}: no entry at tick {t}: {e:?}")})),
+                Ok(e) => {
+                    if e.worldline_tick.as_u64() != t || e.worldline_id != *w {
+                        findings.push(json!({"key":"chain.gap:runtime_append","detail":format!("worldline {name}: entry at index {t} carries tick {} / another worldline", e.worldline_tick.as_u64())}));
+                    }
+                    let want: Vec<ProvenanceRef> = prev.into_iter().collect();
+                    if e.parents != want {
+                        findings.push(json!({"key":"chain.parent_link:runtime_append",
+                            "detail":format!("worldline {name}: the entry the runtime appended at tick {t} (head {:?}, global tick {}) records parents at ticks {:?}; the previous entry of the worldline is {:?}",
+                                e.head_key.map(|h| hex::encode(&h.head_id.as_bytes()[..4])), e.commit_global_tick.as_u64(),
+                                e.parents.iter().map(|p| p.worldline_tick.as_u64()).collect::<Vec<_>>(), want.first().map(|p| p.worldline_tick.as_u64()))}));
+                    }
+                    prev = Some(e.as_ref());
+                }
+            }
+        }
+        let live = world.live(*w);
+        let live_proj = project_full(live.warp_state());
+        let check = |ep: &str, t: u64, got: &WorldlineState, findings: &mut Vec<Value>| {
+            let mut bad: Vec<&str> = Vec::new();
+            let lh = live.tick_history();
+            if got.tick_history().len() as u64 != t || lh.len() < t as usize || got.tick_history() != &lh[..t as usize] {
+                bad.push("tick_history");
+            }
+            if t > 0 && lh.len() >= t as usize && got.state_root() != lh[t as usize - 1].0.state_root {
+                bad.push("state_root");
+            }
+            if t == len && (project_full(got.warp_state()) != live_proj || lm_of(got) != lm_of(&live) || got.state_root() != live.state_root()) {
+                bad.push("frontier_state");
+            }
+            if !bad.is_empty() {
+                findings.push(json!({"key": format!("untampered_history_does_not_verify:{ep}"),
+                    "detail": format!("worldline {name} tick {t}: re-verification returns a result different from the live runtime's ({bad:?})")}));
+            }
+        };
+        for t in 0..=len {
+            match util::catch(|| world.prov.replay_worldline_state_at(*w, &world.u0, wt(t))) {
+                Err(p) => findings.push(json!({"key":"untampered_history_does_not_verify:replay_worldline_state_at","detail":format!("worldline {name} tick {t}: panic {p}")})),
+                Ok(Err(e)) => findings.push(json!({"key":"untampered_history_does_not_verify:replay_worldline_state_at",
+                    "detail":format!("worldline {name}: the untampered history the runtime appended does not replay at tick {t}: {e:?}")})),
+                Ok(Ok(s)) => check("replay_worldline_state_at", t, &s, &mut findings),
+            }
+            let mut c = PlaybackCursor::new(CursorId([4; 32]), *w, ids::warp("w0"), CursorRole::Reader, &world.u0, wt(len));
+            match util::catch(|| c.seek_to(wt(t), &world.prov, &world.u0)) {
+                Err(p) => findings.push(json!({"key":"untampered_history_does_not_verify:PlaybackCursor::seek_to","detail":format!("worldline {name} tick {t}: panic {p}")})),
+                Ok(Err(e)) => findings.push(json!({"key":"untampered_history_does_not_verify:PlaybackCursor::seek_to",
+                    "detail":format!("worldline {name}: seek_to({t}) on the untampered history fails: {e:?}")})),
+                Ok(Ok(())) => check("PlaybackCursor::seek_to", t, c.materialized_state(), &mut findings),
+            }
+        }
+    }
+    findings
+}
+
 /// Runs the model's store through the real runtime: non-fork lanes share SuperTicks (multi-worldline,
 /// alternating heads), forks continue on a real child frontier.
-fn build_store(spec: &StoreJ, trace: &mut Vec<Value>) -> Result<Store, String> {
+fn build_store(spec: &StoreJ, trace: &mut Vec<Value>) -> Result<Built, String> {
+    let mut multi = 0u64;
     let u0 = c07::u0_state(&spec.u0);
     let mut world = World::new(&u0, 0x0100_0000)?;
     // World::new registers MAIN = wl_id(1): lane index k gets wl_id(k+1)
@@ -155,12 +237,22 @@ fn build_store(spec: &StoreJ, trace: &mut Vec<Value>) -> Result<Store, String> {
         if recs.len() != want {
             return Err(format!("super tick {i}: {} commits, expected {want}", recs.len()));
         }
+        multi += multi_head(&recs);
         log_new_entries(&world, &names, &mut seen, trace);
+    }
+    // before anything is forked or tampered with: the runtime's own store must be a chain that re-verifies
+    let roots: BTreeMap<WorldlineId, String> = names.iter().filter(|(_, n)| spec.lanes.iter().any(|l| &l.w == *n && l.fork_of.is_empty())).map(|(k, v)| (*k, v.clone())).collect();
+    let findings = check_runtime_history(&world, &roots);
+    if !findings.is_empty() {
+        return Ok(Built { store: None, findings, multi_head_superticks: multi });
     }
     for l in spec.lanes.iter().filter(|l| !l.fork_of.is_empty()) {
         let src = ids_by_name[&l.fork_of];
         let child = ids_by_name[&l.w];
-        world.fork(src, l.fork_at as u64, child)?;
+        if let Err(e) = world.fork(src, l.fork_at as u64, child) {
+            return Ok(Built { store: None, multi_head_superticks: multi,
+                findings: vec![json!({"key":"untampered_history_does_not_verify:fork_replay","detail":format!("fork of {} at {}: {e}", l.fork_of, l.fork_at)})] });
+        }
         trace.push(json!({"event":"fork","src":l.fork_of,"at":l.fork_at,"new":l.w}));
         seen.insert(child, l.fork_at as u64 + 1);
         for i in (l.fork_at as usize + 1)..l.ticks.len() {
@@ -196,7 +288,8 @@ fn build_store(spec: &StoreJ, trace: &mut Vec<Value>) -> Result<Store, String> {
             entries,
         });
     }
-    Ok(Store { u0, lanes })
+    let findings = check_runtime_history(&world, &names);
+    Ok(Built { store: if findings.is_empty() { Some(Store { u0, lanes }) } else { None }, findings, multi_head_superticks: multi })
 }
 
 // --------------------------------------------------------------------------- tamper catalogue
@@ -835,8 +928,100 @@ fn run_case(p: &Prep<'_>, c: &CaseJ, have_pred: bool) -> Value {
                         "eps": ver.by_ep.iter().map(|(k, v)| (k.to_string(), json!(v))).collect::<serde_json::Map<_, _>>()}})
 }
 
+/// A `ProvenanceStore` that serves one checkpoint it never validated (transported / foreign store):
+/// everything else is the intact service.
+struct ServedCheckpoint<'a> {
+    inner: &'a ProvenanceService,
+    w: WorldlineId,
+    ck: ReplayCheckpoint,
+}
+
+impl ServedCheckpoint<'_> {
+    fn serves(&self, w: WorldlineId, tick: warp_core::WorldlineTick) -> bool {
+        w == self.w && self.ck.checkpoint.worldline_tick < tick
+    }
+}
+
+impl ProvenanceStore for ServedCheckpoint<'_> {
+    fn u0(&self, w: WorldlineId) -> Result<WarpId, HistoryError> {
+        self.inner.u0(w)
+    }
+    fn initial_boundary_hash(&self, w: WorldlineId) -> Result<Hash, HistoryError> {
+        ProvenanceStore::initial_boundary_hash(self.inner, w)
+    }
+    fn len(&self, w: WorldlineId) -> Result<u64, HistoryError> {
+        self.inner.len(w)
+    }
+    fn entry(&self, w: WorldlineId, tick: warp_core::WorldlineTick) -> Result<ProvenanceEntry, HistoryError> {
+        self.inner.entry(w, tick)
+    }
+    fn parents(&self, w: WorldlineId, tick: warp_core::WorldlineTick) -> Result<Vec<ProvenanceRef>, HistoryError> {
+        self.inner.parents(w, tick)
+    }
+    fn append_local_commit(&mut self, _entry: ProvenanceEntry) -> Result<(), HistoryError> {
+        unreachable!("read-only")
+    }
+    fn append_recorded_event(&mut self, _entry: ProvenanceEntry) -> Result<(), HistoryError> {
+        unreachable!("read-only")
+    }
+    fn checkpoint_before(&self, w: WorldlineId, tick: warp_core::WorldlineTick) -> Option<CheckpointRef> {
+        self.serves(w, tick).then_some(self.ck.checkpoint)
+    }
+    fn checkpoint_state_before(&self, w: WorldlineId, tick: warp_core::WorldlineTick) -> Option<ReplayCheckpoint> {
+        self.serves(w, tick).then(|| self.ck.clone())
+    }
+}
+
+/// A checkpoint with honest metadata (tick, state hash of the chain) whose materialized state was swapped,
+/// served by a store that never validated it; every tick is re-verified through `PlaybackCursor::seek_to`
+/// (the generic entry point), in particular the seek exactly to the checkpoint tick.
+fn run_served_ckpt_case(p: &Prep<'_>, ctx: &Ctx<'_>, c: &CaseJ, have_pred: bool) -> Value {
+    let t = c.pos.max(0) as u64 + 1;
+    let u0 = &p.store.u0;
+    let Some(honest) = p.orig.get(t as usize) else { return json!({"verdict":"skip","detail":"no such tick"}) };
+    let other: Option<&WorldlineState> = match c.variant.as_str() {
+        "served_state_sibling" => ctx.sibling.and_then(|l| p.donor_states.get(&l.name)).and_then(|s| s.get(t as usize)),
+        _ => p.orig.get(t as usize - 1),
+    };
+    let Some(other) = other else { return json!({"verdict": if have_pred {"tool_error"} else {"skip"}, "detail": "no state to swap in"}) };
+    if !have_pred && other.state_root() == honest.state_root() {
+        // a swapped state with the same root differs at most in replay metadata, which a foreign store is trusted for
+        return json!({"verdict":"skip","detail":"swapped state has the same root"});
+    }
+    let mut ck = ReplayCheckpoint::from_state(other);
+    ck.checkpoint = CheckpointRef { worldline_tick: wt(t), state_hash: honest.state_root() };
+    let store = ServedCheckpoint { inner: &p.orig_svc, w: ctx.target.id, ck };
+    let len = ctx.target.entries.len() as u64;
+    let mut findings: Vec<Value> = Vec::new();
+    let mut ticks: Vec<String> = Vec::new();
+    for tt in 0..=len {
+        let mut cur = PlaybackCursor::new(CursorId([8; 32]), ctx.target.id, ids::warp("w0"), CursorRole::Reader, u0, wt(len));
+        let o = match util::catch(|| cur.seek_to(wt(tt), &store, u0)) {
+            Err(pn) => format!("panic:{pn}"),
+            Ok(Err(e)) => format!("err:{}", c07::seek_err_class(&e)),
+            Ok(Ok(())) => classify(cur.materialized_state(), &p.orig[tt as usize]),
+        };
+        let cls = class_of(&o).to_string();
+        if cls == "diff_core" || cls == "diff_diag" || cls == "panic" {
+            findings.push(json!({"key": format!("checkpoint({}):PlaybackCursor::seek_to", c.variant),
+                "detail": format!("a store serves a checkpoint at tick {t} with the honest state hash but the materialized state of {}; seek_to({tt}) on a fresh cursor: {o}",
+                    if c.variant == "served_state_sibling" { "the sibling worldline" } else { "the previous tick" })}));
+        }
+        ticks.push(o);
+    }
+    let mut drift: Vec<String> = Vec::new();
+    if have_pred && ticks.iter().map(|s| class_of(s)).collect::<Vec<_>>() != c.ticks.iter().map(|s| class_of(s)).collect::<Vec<_>>() {
+        drift.push(format!("ticks {ticks:?}, model {:?}", c.ticks));
+    }
+    json!({"verdict": if findings.is_empty() {"ok"} else {"violation"}, "findings": findings, "drift": drift,
+           "observed": {"rebuild": "served", "at": t, "ticks": ticks, "ckpt": "", "ckticks": []}})
+}
+
 /// Tampered checkpoints offered to the intact store.
 fn run_ckpt_case(p: &Prep<'_>, ctx: &Ctx<'_>, c: &CaseJ, have_pred: bool) -> Value {
+    if c.variant.starts_with("served_") {
+        return run_served_ckpt_case(p, ctx, c, have_pred);
+    }
     let t = c.pos.max(0) as u64 + 1; // the model's checkpoint tick
     let u0 = &p.store.u0;
     let mut findings: Vec<Value> = Vec::new();
@@ -1116,7 +1301,8 @@ struct RandomJ {
     ticks: u64,
 }
 
-fn build_random(spec: &RandomJ, trace: &mut Vec<Value>) -> Result<Store, String> {
+fn build_random(spec: &RandomJ, trace: &mut Vec<Value>) -> Result<Built, String> {
+    let mut multi = 0u64;
     let mut rng = StdRng::seed_from_u64(spec.seed);
     let mut slots = BTreeMap::new();
     slots.insert("n1".to_string(), "p0".to_string());
@@ -1146,6 +1332,19 @@ fn build_random(spec: &RandomJ, trace: &mut Vec<Value>) -> Result<Store, String>
     world.ingest(wl_id(2), 0, &same)?;
     world.super_tick()?;
     log_new_entries(&world, &names, &mut seen, trace);
+    // always: one SuperTick in which BOTH writer heads of the target worldline (and of the second one) commit,
+    // so the second head's entry must chain to the first head's commit of the same SuperTick
+    for w in [wl_id(1), wl_id(2)] {
+        for h in 0..2usize {
+            world.ingest(w, h, &random_ops(&mut rng))?;
+        }
+    }
+    let recs = world.super_tick()?;
+    if recs.len() != 4 {
+        return Err(format!("two-head SuperTick committed {} heads, expected 4", recs.len()));
+    }
+    multi += multi_head(&recs);
+    log_new_entries(&world, &names, &mut seen, trace);
     // interleaved multi-head multi-worldline SuperTicks until the first lane has `ticks` entries
     while world.prov.len(target).unwrap_or(0) < spec.ticks {
         for (id, _) in names.clone() {
@@ -1153,27 +1352,42 @@ fn build_random(spec: &RandomJ, trace: &mut Vec<Value>) -> Result<Store, String>
                 continue;
             }
             for h in 0..2usize {
-                if rng.gen_bool(if h == 0 { 0.8 } else { 0.35 }) {
+                if rng.gen_bool(if h == 0 { 0.8 } else { 0.5 }) {
                     for _ in 0..rng.gen_range(1..=2) {
                         world.ingest(id, h, &random_ops(&mut rng))?;
                     }
                 }
             }
         }
-        world.super_tick()?;
+        let recs = world.super_tick()?;
+        multi += multi_head(&recs);
         log_new_entries(&world, &names, &mut seen, trace);
+    }
+    // before anything is forked or tampered with: the runtime's own store must be a chain that re-verifies
+    let findings = check_runtime_history(&world, &names);
+    if !findings.is_empty() {
+        return Ok(Built { store: None, findings, multi_head_superticks: multi });
     }
     // a sibling: fork of the target somewhere in the middle, continuing for a few ticks
     let tlen = world.prov.len(target).unwrap_or(0);
     let ft = rng.gen_range(0..tlen.saturating_sub(1).max(1));
     let child = wl_id(k as u8 + 1);
-    world.fork(target, ft, child)?;
+    if let Err(e) = world.fork(target, ft, child) {
+        return Ok(Built { store: None, multi_head_superticks: multi,
+            findings: vec![json!({"key":"untampered_history_does_not_verify:fork_replay","detail":format!("fork of r0 at {ft}: {e}")})] });
+    }
     names.insert(child, "rf".into());
     trace.push(json!({"event":"fork","src":"r0","at":ft,"new":"rf"}));
     seen.insert(child, ft + 1);
-    for _ in 0..rng.gen_range(2..=4) {
+    for round in 0..rng.gen_range(2..=4) {
         world.ingest(child, rng.gen_range(0..2), &random_ops(&mut rng))?;
-        world.super_tick()?;
+        if round == 0 {
+            // both heads of the child commit in its first SuperTick
+            world.ingest(child, 0, &random_ops(&mut rng))?;
+            world.ingest(child, 1, &random_ops(&mut rng))?;
+        }
+        let recs = world.super_tick()?;
+        multi += multi_head(&recs);
         log_new_entries(&world, &names, &mut seen, trace);
     }
     let mut lanes = Vec::new();
@@ -1191,7 +1405,8 @@ fn build_random(spec: &RandomJ, trace: &mut Vec<Value>) -> Result<Store, String>
         }
         lanes.push(Lane { name: nme.clone(), id: *id, fork_of: if nme == "rf" { Some(("r0".into(), ft)) } else { None }, entries });
     }
-    Ok(Store { u0, lanes })
+    let findings = check_runtime_history(&world, &names);
+    Ok(Built { store: if findings.is_empty() { Some(Store { u0, lanes }) } else { None }, findings, multi_head_superticks: multi })
 }
 
 fn all_cases(n: usize) -> Vec<CaseJ> {
@@ -1209,7 +1424,7 @@ fn all_cases(n: usize) -> Vec<CaseJ> {
                 v.push(mk(k, pos, "", d));
             }
         }
-        for cv in ["honest", "hash_flip", "tick_plus1", "tick_minus1", "state_sibling", "state_lm_twin", "state_plan_twin"] {
+        for cv in ["honest", "hash_flip", "tick_plus1", "tick_minus1", "state_sibling", "state_lm_twin", "state_plan_twin", "served_state_sibling", "served_state_prev_tick"] {
             v.push(mk("ckpt", pos, "", cv));
         }
     }
@@ -1226,6 +1441,7 @@ pub fn run(args: &[String]) -> i32 {
     let mut out = util::Out::create(&args[1]);
     let mut trace_out = args.get(2).map(|p| util::Out::create(p));
     let mut store: Option<Store> = None;
+    let mut store_refuted = false; // the runtime's own history did not verify: dependent lines are skipped, not tool errors
     let (mut n, mut viol, mut tool) = (0u64, 0u64, 0u64);
     let mut emit = |out: &mut util::Out, mut r: Value, i: usize, n: &mut u64, viol: &mut u64, tool: &mut u64| {
         r["i"] = json!(i);
@@ -1243,9 +1459,12 @@ pub fn run(args: &[String]) -> i32 {
             "store" => {
                 let mut trace = vec![json!({"event":"reset"})];
                 let r = match serde_json::from_value::<StoreJ>(v.clone()).map_err(|e| e.to_string()).and_then(|s| build_store(&s, &mut trace)) {
-                    Ok(s) => {
-                        let r = json!({"verdict":"ok","kind":"store","lanes": s.lanes.iter().map(|l| json!({"w": l.name, "len": l.entries.len()})).collect::<Vec<_>>()});
-                        store = Some(s);
+                    Ok(b) => {
+                        let r = json!({"verdict": if b.findings.is_empty() {"ok"} else {"violation"}, "kind":"store", "findings": b.findings,
+                            "multi_head_superticks": b.multi_head_superticks,
+                            "lanes": b.store.iter().flat_map(|s| s.lanes.iter()).map(|l| json!({"w": l.name, "len": l.entries.len()})).collect::<Vec<_>>()});
+                        store_refuted = b.store.is_none();
+                        store = b.store;
                         r
                     }
                     Err(e) => json!({"verdict":"tool_error","kind":"store","detail":e}),
@@ -1272,15 +1491,23 @@ pub fn run(args: &[String]) -> i32 {
                         t.line(e);
                     }
                 }
-                let st = match st {
+                let built = match st {
                     Ok(s) => s,
                     Err(e) => {
                         emit(&mut out, json!({"verdict":"tool_error","detail":e}), i, &mut n, &mut viol, &mut tool);
                         continue;
                     }
                 };
+                let multi_heads = built.multi_head_superticks;
+                let Some(st) = built.store else {
+                    // the runtime's own history is not a verifying chain: nothing to tamper with
+                    emit(&mut out, json!({"verdict":"violation","kind":"random","seed":spec.seed,"findings":built.findings,"multi_head_superticks":multi_heads,
+                        "cases":0,"classes":{}}), i, &mut n, &mut viol, &mut tool);
+                    continue;
+                };
                 match prep(&st, "r0") {
-                    Err(e) => emit(&mut out, json!({"verdict":"violation","kind":"random","findings":[{"key":"untampered:replay_worldline_state_at","detail":e}]}), i, &mut n, &mut viol, &mut tool),
+                    Err(e) => emit(&mut out, json!({"verdict":"violation","kind":"random","seed":spec.seed,"cases":0,"classes":{},"multi_head_superticks":multi_heads,
+                        "findings":[{"key":"untampered_history_does_not_verify:replay_worldline_state_at","detail":e}]}), i, &mut n, &mut viol, &mut tool),
                     Ok(p) => {
                         let len = st.lane("r0").map(|l| l.entries.len()).unwrap_or(0);
                         let mut findings: Vec<Value> = Vec::new();
@@ -1326,7 +1553,7 @@ pub fn run(args: &[String]) -> i32 {
                             }
                         }
                         let r = json!({"verdict": if findings.is_empty() {"ok"} else {"violation"}, "kind":"random", "seed": spec.seed,
-                            "len": len, "cases": ran, "skipped": skipped, "findings": findings, "classes": classes,
+                            "len": len, "cases": ran, "skipped": skipped, "findings": findings, "classes": classes, "multi_head_superticks": multi_heads,
                             "btr_evaluations": btr["evaluations"], "suffix_evaluations": sfx["evaluations"], "btr_accepted_unbound": btr["accepted_unbound"]});
                         emit(&mut out, r, i, &mut n, &mut viol, &mut tool);
                     }
@@ -1338,17 +1565,19 @@ pub fn run(args: &[String]) -> i32 {
                         if kind == "btr" { run_btr(&p) } else { run_suffix(&p) }
                     }
                     Some(Err(e)) => json!({"verdict":"tool_error","detail":e}),
+                    None if store_refuted => json!({"verdict":"skip","detail":"the untampered store did not verify"}),
                     None => json!({"verdict":"tool_error","detail":"no store"}),
                 };
                 emit(&mut out, r, i, &mut n, &mut viol, &mut tool);
             }
             _ => {
                 let r = match (store.as_ref(), serde_json::from_value::<CaseJ>(v.clone())) {
+                    (None, _) if store_refuted => json!({"verdict":"skip","detail":"the untampered store did not verify"}),
                     (None, _) => json!({"verdict":"tool_error","detail":"no store"}),
                     (_, Err(e)) => json!({"verdict":"tool_error","detail":format!("case parse: {e}")}),
                     (Some(s), Ok(c)) => match prep(s, "a") {
                         Ok(p) => run_case(&p, &c, true),
-                        Err(e) => json!({"verdict":"violation","findings":[{"key":"untampered:replay_worldline_state_at","detail":e}]}),
+                        Err(e) => json!({"verdict":"violation","findings":[{"key":"untampered_history_does_not_verify:replay_worldline_state_at","detail":e}]}),
                     },
                 };
                 emit(&mut out, r, i, &mut n, &mut viol, &mut tool);
